@@ -300,6 +300,15 @@ MultiAssignProg(p, q, first) ==
                (IF first THEN <<>> ELSE <<PV(5, Id(third))>>) \o <<Ret(ListE(<<Id("a"), Id("b"), Id("c")>>))>>
   IN <<VarS("mk", FuncE("", <<>>, <<VarS("a", I(1)), VarS("b", I(2)), VarS("c", I(3)), Ret(FuncE("", <<>>, inner))>>)),
        VarS("g", CallE(Id("mk"), <<>>)), PV(1, CallE(Id("g"), <<>>)), PV(2, CallE(Id("g"), <<>>)), ES(CallE(Id("g"), <<>>))>>
+\* a pipe stage that is a call with further arguments which are calls themselves: the piped value becomes the first
+\* argument of the stage; the calls inside the arguments are evaluated as anywhere else (Lang!PipeStages)
+PipeE(stages) == [k |-> "pipe", stages |-> stages]
+PipeNestedProg(inFn) ==
+  LET sts == <<VarS("pair", FuncE("", <<Param("a"), Param("b")>>, <<Ret(ListE(<<Id("a"), Id("b")>>))>>)),
+               VarS("one", FuncE("", <<>>, <<P(7), Ret(I(1))>>)),
+               PV(1, PipeE(<<I(5), CallE(Id("pair"), <<CallE(Id("one"), <<>>)>>)>>)),
+               PV(2, PipeE(<<I(6), CallE(Id("pair"), <<CallE(Id("len"), <<ListE(<<I(1), I(2)>>)>>)>>), CallE(Id("pair"), <<CallE(Id("one"), <<>>)>>)>>))>>
+  IN IF inFn THEN <<VarS("run", FuncE("", <<>>, sts \o <<Ret(I(3))>>)), PV(3, CallE(Id("run"), <<>>)), ES(I(0))>> ELSE sts \o <<ES(I(0))>>
 \* "var a, b = [..]" DECLARES its names (like "a, b := [..]"): inside a function it shadows, it never assigns outer ones
 VarMultiProg(walrus) ==
   LET d == [k |-> "multivar", ns |-> <<"a", "b">>, decl |-> TRUE, var |-> ~walrus, e |-> ListE(<<I(10), I(20)>>)]
@@ -320,7 +329,7 @@ CbClosureProg(meth, mutate, two) ==
 CallbackClosures(u) == {CbClosureProg(m, mu, FALSE) : m \in {"map", "filter", "each"}, mu \in BOOLEAN}
                        \cup {CbClosureProg("map", mu, TRUE) : mu \in BOOLEAN}
 MultiAssigns(u) == ({MultiAssignProg(p, q, first) : p \in 1..3, q \in 1..3, first \in BOOLEAN} \ {MultiAssignProg(p, p, f) : p \in 1..3, f \in BOOLEAN})
-                   \cup {VarMultiProg(w) : w \in BOOLEAN}
+                   \cup {VarMultiProg(w) : w \in BOOLEAN} \cup {PipeNestedProg(b) : b \in BOOLEAN}
 
 \* read-modify-write statements whose right-hand side CHANGES the target while it is evaluated: x op= E reads x
 \* before E runs, x = x op E and x = E op x read x when the operand is reached (left to right), a[0] op= E reads
